@@ -88,6 +88,17 @@ class RunApplicationAsync(FnSpec):
             else:
                 st_after.ghost["run_raised"] = exc.t
 
+    def after_spec_call(self, eng, st, qual, args, res, exc, anchor):
+        if qual == MOD_SST:
+            # A-SIG0: the signal handler task cannot cancel the startup scope before the call that starts it has returned (it reaches its
+            # first wait only after its starter was resumed); so a failure of that call is never the scope's own cancellation
+            scope = st.env.get(roles_with_target(eng.fi.node))
+            if scope is not None:
+                st.assume(z3.Not(z3.Select(st.heap["g:cs_cancelled"], Val.a(scope.t))))
+                st.uses.add("A-SIG0")
+        if qual == START and exc is None:
+            st.ghost["heap_at_start_ret"] = HeapView(dict(st.heap))
+
     def _facts(self, F):
         tr = F.new_st.trace
         idx = lambda pred: [i for i, e in enumerate(tr) if pred(e)]
@@ -143,7 +154,8 @@ class RunApplicationAsync(FnSpec):
             out.append(("status-without-startup-result-only-by-cancellation", z3.BoolVal(not g["run_called"] and not f["ev_wait"])))
             return out
         comp = F.new_st.trace[f["start_ret"][0]][3].t
-        is_cli = subcls(type_of_obj(F, comp), con("CLIApplicationComponent"))
+        Hs = g.get("heap_at_start_ret") or F.new
+        is_cli = z3.And(Val.is_ref(comp), subcls(Hs.fld("__class__", Val.a(comp)), con("CLIApplicationComponent")))
         if g["run_called"]:
             rc = g["run_result"]
             out.append(("run-only-for-a-CLI-component", is_cli))
@@ -168,6 +180,11 @@ class RunApplicationAsync(FnSpec):
         return out
 
 
+def roles_with_target(fnode):
+    from pyvc import roles
+    return roles.with_target(fnode, "CancelScope")
+
+
 def type_of_obj(F, v):
     return z3.If(Val.is_ref(v), F.new.fld("__class__", Val.a(v)), type_of(v))
 
@@ -178,6 +195,8 @@ def register(reg):
         return [Res(st, SV(fresh("ext"), ANY))]
     for name in ("platform.system", "functools.partial", "anyio.get_cancelled_exc_class"):
         reg.ext_calls.setdefault(name, pure_ext)
+    reg.assumptions_text["A-SIG0"] = ("the signal handler service task does not cancel the startup scope before start_service_task() has "
+                                      "returned to its caller (asyncio/trio resume the starter before the handler's first wait completes)")
     reg.assumptions_text["A-PURE-EXT"] = "platform.system(), functools.partial(...), anyio.get_cancelled_exc_class() return a value and have no effect"
     reg.add(ModStartServiceTask)
     reg.add(RunApplicationAsync)
